@@ -20,6 +20,11 @@ CHECKS = {
    technique="property-based testing with a counting global allocator: generated, idiom and corpus programs x generated histories, repeated create-play-drop cycles and repeated reset/load rounds; invariant: live heap bytes return to / stay at the baseline",
    text="The harness binary counts live heap bytes per thread. After two warm-up cycles every create -> play -> drop cycle must leave the live byte count exactly where it was, and repeated reset+replay rounds and repeated load_state of one save on one instance must not raise it above the first measured round. Exploration only.",
    note="Exact equality; per-thread counters; histories are replayed identically in every cycle."),
+ "C06": dict(
+   category="exploration", design="DESIGN.md §5 C06",
+   technique="fuzzing by source mutation (character, line, bracket, splice, identifier-rename mutators over corpus, generated and idiom sources) and token soup, proptest-driven and tape-shrunk, in a worker process under a watchdog; oracles: no panic, error line within the input, output loads, an independent static resolver accepts every emitted reference, compiling twice is byte-identical",
+   text="Every input is compiled with a file handler that knows no files. The compiler must return; an error line must lie within 1..=#lines; a compiled story must parse, load with Story::new and pass the harness's own resolver: every ->, ->t->, f(), *, CNT?, ^-> path addresses existing content, every variable token names a declared global, list item or temporary of its flow, every x() names an EXTERNAL. The resolver is first validated against all reference-compiled corpus documents. Exploration only: inputs are sampled.",
+   note="A worker exceeding its budget is inconclusive (exit 2). Hangs are therefore bounded, not excluded."),
  "C19": dict(
    category="exploration", design="DESIGN.md §5 C19",
    technique="property-based round-trip testing over every runtime object of corpus and generated stories (content-audit hook): path -> object identity, path text round trip, Eq => Hash, relative paths between object pairs (all pairs for small stories, sampled otherwise)",
